@@ -549,6 +549,33 @@ func (g *gen) stmt(depth int) []*Stmt {
 				return []*Stmt{t}
 			}
 		}
+		if len(g.p.Funcs) > 0 && g.rng.IntN(4) == 0 {
+			// several calls (and other temporaries) alive in one expression, and a call result that is
+			// kept in a variable while later temporaries are allocated
+			call := func() *Expr {
+				f := g.p.Funcs[g.rng.IntN(len(g.p.Funcs))]
+				e := &Expr{Kind: "call", Name: f.Name}
+				for range f.Params {
+					e.Args = append(e.Args, g.expr(0, nil))
+				}
+				return e
+			}
+			v := func() *Expr { return &Expr{Kind: "var", Name: g.p.Vars[g.rng.IntN(len(g.p.Vars))]} }
+			prod := func() *Expr { return &Expr{Kind: "mul", L: v(), R: v()} }
+			switch g.rng.IntN(4) {
+			case 0:
+				return []*Stmt{{Kind: "assign", Name: g.freeVar(), E: &Expr{Kind: "add", L: call(), R: call()}}}
+			case 1:
+				return []*Stmt{{Kind: "assign", Name: g.freeVar(), E: &Expr{Kind: "add", L: call(), R: prod()}}}
+			case 2:
+				return []*Stmt{{Kind: "assign", Name: g.freeVar(), E: &Expr{Kind: "add", L: &Expr{Kind: "add", L: call(), R: call()}, R: call()}}}
+			default:
+				keep := g.freeVar()
+				return []*Stmt{{Kind: "assign", Name: keep, E: call()},
+					{Kind: "assign", Name: g.freeVar(), E: &Expr{Kind: "add", L: &Expr{Kind: "add", L: v(), R: prod()}, R: v()}},
+					{Kind: "write", Name: fmt.Sprintf("out%d", g.rng.IntN(len(g.p.Outputs))), E: &Expr{Kind: "var", Name: keep}}}
+			}
+		}
 		return []*Stmt{{Kind: "assign", Name: g.freeVar(), E: g.expr(2, nil)}}
 	case k == 3:
 		return []*Stmt{{Kind: []string{"inc", "dec"}[g.rng.IntN(2)], Name: g.freeVar()}}
